@@ -19,6 +19,7 @@ package header
 import (
 	"bytes"
 	"encoding/binary"
+	"errors"
 	"io"
 	"math/bits"
 	"sort"
@@ -36,6 +37,10 @@ func Write(w io.Writer, scalerType uint32, tables map[string][]byte) (int64, err
 		}
 	}
 	numTables := len(tableNames)
+	if numTables == 0 || numTables >= 1<<12 {
+		// searchRange = 16 * 2^floor(log2(numTables)) must fit into 16 bits
+		return 0, errors.New("sfnt/header: invalid number of tables")
+	}
 
 	// sort the table names in the recommended order
 	sort.Slice(tableNames, func(i, j int) bool {
